@@ -181,6 +181,7 @@ class Check:
             names.setdefault(n, [])
         # refutations
         seen_fail = set()
+        searched = set()
         for v in self.vcs:
             if v.status == "sat":
                 if v.name in seen_fail:
@@ -199,7 +200,29 @@ class Check:
                 self.failures.append(Failure(v.name, "refuted", f"counter-model from {v.solver}", witness, cls,
                                              reproduced, solver_output=json.dumps(v.model, default=str)[:2000]))
             elif v.status == "unknown":
-                self.undecided.append((v.name, f"solvers returned unknown: {v.detail}"))
+                # an undischarged obligation is *undecided*, unless the sidecar's bounded
+                # search turns it into a concrete failing input on the real code
+                if v.name in seen_fail:
+                    continue
+                replay = None
+                for pref, fn in self.vc_replay.items():
+                    if v.name.startswith(pref):
+                        replay = fn
+                found = False
+                if replay is not None and v.name not in searched:
+                    searched.add(v.name)
+                    try:
+                        reproduced, witness, cls = replay(None, v.name)
+                        if reproduced:
+                            found = True
+                            seen_fail.add(v.name)
+                            self.failures.append(Failure(v.name, "undischarged+search",
+                                                         "obligation not discharged; bounded search on the real code found a failing input",
+                                                         witness, cls, True, solver_output=v.detail))
+                    except Exception:  # noqa: BLE001
+                        self.crashes.append(f"search for {v.name} crashed: {traceback.format_exc()}")
+                if not found:
+                    self.undecided.append((v.name, f"solvers returned unknown: {v.detail}"))
         n_obl = len(names) + len(self.static_obs)
         n_dis = sum(1 for n, vs in names.items() if all(x.status == "unsat" for x in vs)) + \
             sum(1 for _, ok, _ in self.static_obs if ok)
